@@ -390,7 +390,41 @@ func c18Run(c *core.Ctx, i int) {
 		}
 	case "check":
 		c18Check(c, f, dir, path, formatted, desc)
+		if f.symlink {
+			c18RelativeLink(c, f, dir, formatted, desc)
+		}
 	}
+}
+
+// c18RelativeLink: `evy fmt -w sub/link.evy` where the link's target is relative and the working
+// directory holds an unrelated file with the target's name: only the file the link points to may change.
+func c18RelativeLink(c *core.Ctx, f c18File, dir, formatted, desc string) {
+	proj := filepath.Join(dir, "proj")
+	sub := filepath.Join(proj, "samples")
+	_ = os.MkdirAll(sub, 0o755)
+	decoy := "decoy:=1\nprint   decoy\n"
+	_ = os.WriteFile(filepath.Join(proj, "hello.evy"), []byte(decoy), 0o640)
+	_ = os.WriteFile(filepath.Join(sub, "hello.evy"), []byte(f.content), 0o644)
+	_ = os.Symlink("hello.evy", filepath.Join(sub, "latest.evy"))
+	_, stderr, code, err := evyCmdIn(c, proj, "", "fmt", "-w", "samples/latest.evy")
+	if err != nil {
+		c.Inconclusive(desc + ": " + err.Error())
+		return
+	}
+	c.Event("relative_link_runs", 1)
+	got, _ := os.ReadFile(filepath.Join(sub, "latest.evy")) // the file named on the command line (the tool replaces a link by a regular file; its target then keeps the original text, which the property allows)
+	dec, _ := os.ReadFile(filepath.Join(proj, "hello.evy"))
+	st, _ := os.Stat(filepath.Join(proj, "hello.evy"))
+	entries, _ := os.ReadDir(proj)
+	switch {
+	case string(dec) != decoy || (st != nil && st.Mode().Perm() != 0o640):
+		c.Violation("unrelated-file-changed", fmt.Sprintf("evy fmt -w samples/latest.evy (link to hello.evy, run from the directory above): the unrelated ./hello.evy was changed (exit %d, %s)", code, firstN(stderr, 120)), desc, nil)
+	case code != 0 || string(got) != formatted:
+		c.Violation("linked-file-not-formatted", fmt.Sprintf("evy fmt -w samples/latest.evy: exit %d (%s), the named file holds the formatted text=%v", code, firstN(stderr, 120), string(got) == formatted), desc, nil)
+	case len(entries) != 2:
+		c.Violation("leftover-in-working-directory", fmt.Sprintf("evy fmt -w samples/latest.evy left %d entries in the working directory", len(entries)), desc, nil)
+	}
+	_ = os.RemoveAll(proj)
 }
 
 func grepLines(s, sub string, n int) []string {
@@ -502,6 +536,14 @@ func c18Check(c *core.Ctx, f c18File, dir, path, formatted, desc string) {
 			_, stderr, code, err := evyCmd(c, v.text, "fmt", "-c")
 			if err == nil && (code == 0) != wantZero {
 				c.Violation("check-wrong-verdict-stdin", fmt.Sprintf("evy fmt -c on stdin (%s text of %s): exit %d (%s), is-formatted=%v", v.what, f.name, code, firstN(stderr, 200), wantZero), desc, nil)
+			}
+			// a file argument that is not a regular file (here the pipe behind /dev/stdin): same verdict
+			if len(v.text) < 60000 {
+				_, stderr, code, err = evyCmd(c, v.text, "fmt", "-c", "/dev/stdin")
+				c.Event("non_regular_file_checks", 1)
+				if err == nil && (code == 0) != wantZero {
+					c.Violation("check-wrong-verdict-pipe", fmt.Sprintf("evy fmt -c /dev/stdin (a pipe holding the %s text of %s): exit %d (%s), is-formatted=%v", v.what, f.name, code, firstN(stderr, 200), wantZero), desc, nil)
+				}
 			}
 		}
 	}
